@@ -30,7 +30,7 @@ SHARD_TIMEOUT = {"quick": 900, "thorough": 3000}
 ARCH_VOCAB = [
     ("layer", "A"), ("layer", "B"),
     ("containing_modules", "mod_m"), ("containing_modules", "mod_n"),
-    ("containing_modules", ["mod_m"]), ("containing_modules", ["mod_n"]), ("containing_modules", ["mod_m", "mod_n"]), ("containing_modules", ["mod_n", "mod_m"]),
+    ("containing_modules", ["mod_m"]), ("containing_modules", ["mod_n"]), ("containing_modules", ["mod_m", "mod_n"]), ("containing_modules", ["mod_n", "mod_m"]), ("containing_modules", []),
     ("have_modules_with_names_matching", "mod_.*"), ("with_layer", None),
 ]
 RULE_VOCAB = [
@@ -179,5 +179,5 @@ def floors(acc, tier):
         if h.get(k, 0) == 0:
             why.append(f"violating situation never forced: {k}")
     acc.flags["exhaustive"] = bool(acc.flags.get("exhaustive_arch")) and bool(acc.flags.get("exhaustive_rule_chains"))
-    acc.flags["exhaustive_subspaces"] = "all LayeredArchitecture call sequences up to the tier's length over a 10-symbol vocabulary and all LayerRule chains over a 14-symbol vocabulary, pruned at the first rejected call"
+    acc.flags["exhaustive_subspaces"] = "all LayeredArchitecture call sequences up to the tier's length over an 11-symbol vocabulary and all LayerRule chains over a 14-symbol vocabulary, pruned at the first rejected call"
     return why
